@@ -97,6 +97,8 @@ class Machine:
         self.SM = SM
         self.extra_summaries = summaries or {}
         self.iter_budget = None      # k: every iterator yields at most k elements per path (set loop_limit = k + 1 with it)
+        self.havoc_loops = False     # at the first entry of a loop header, replace the integer locals assigned in the loop by symbols
+        self._loopinfo = {}
 
     # ---------------------------------------------------------------- types
     def T(self, fr, ix):
@@ -773,6 +775,8 @@ class Machine:
                 return
             fr.visited[bb] = n + 1
             st.trace.append((fr.key, bb))
+            if self.havoc_loops and n == 0:
+                self.havoc_at_header(st, fr, bb)
             bl = body["blocks"][bb]
             for s in bl["stmts"]:
                 if s["k"] == "assign":
@@ -849,7 +853,10 @@ class Machine:
                     return
                 st.frames.pop()
                 caller = st.frames[-1]
-                if fr.post is not None:
+                if fr.post is not None and fr.post[0] == 'not':
+                    e = self.as_int(st, ret)
+                    ret = INT(sx.Un('Not', e, 1, False)) if e is not None else TOP
+                elif fr.post is not None:
                     pt = caller.crate.types[fr.post[1]]
                     ret = self.SM.mk_enum(self, caller, fr.post[1], 1 if pt.get("path") == "std::option::Option" else 0, [ret])
                 self.write_place(st, caller, fr.dest, ret)
@@ -871,6 +878,54 @@ class Machine:
                 return
             else:
                 raise Unsupported("terminator %s" % k)
+
+    def loop_info(self, key):
+        """header block -> set of int/bool user locals assigned inside the natural loop"""
+        if key in self._loopinfo:
+            return self._loopinfo[key]
+        import graph as G
+        body = self.P.body[key]
+        cr = self.P.crate_of[key]
+        info = {}
+        pr = G.preds(body)
+        for src, head in G.back_edges(body):
+            nodes = {head, src}
+            stack = [src]
+            while stack:
+                x = stack.pop()
+                if x == head:
+                    continue
+                for q in pr.get(x, []):
+                    if q not in nodes:
+                        nodes.add(q)
+                        stack.append(q)
+            locs = info.setdefault(head, set())
+            for x in nodes:
+                bl = body["blocks"][x]
+                for stt in bl["stmts"]:
+                    if stt["k"] == "assign" and not stt["place"]["proj"]:
+                        locs.add(stt["place"]["local"])
+                t = bl["term"]
+                if t["k"] == "call" and not t["dest"]["proj"]:
+                    locs.add(t["dest"]["local"])
+            keep = set()
+            for l in locs:
+                ld = body["locals"][l]
+                if ld["name"] and self.int_ty(cr.types[ld["ty"]]):
+                    keep.add(l)
+            info[head] = keep
+        self._loopinfo[key] = info
+        return info
+
+    def havoc_at_header(self, st, fr, bb):
+        info = self.loop_info(fr.key)
+        if bb not in info:
+            return
+        body = self.P.body[fr.key]
+        for l in sorted(info[bb]):
+            ld = body["locals"][l]
+            st.cells[('L', fr.fid, l)] = ('unk', ld["ty"], "%s@loop" % ld["name"], fr.crate.name)
+        st.events.append(('loop-havoc', fr.key, bb, tuple(body["locals"][l]["name"] for l in sorted(info[bb]))))
 
     def classify(self, st, fr, ret):
         if ret[0] == 'agg' and len(ret) > 6 and ret[5] == "std::result::Result":
@@ -933,6 +988,17 @@ class Machine:
             r = self.call_map(st, fr, t, args, rp)
             if r is not None:
                 return r
+        if rp in ("std::cmp::impls::<impl std::cmp::PartialEq<&B> for &A>::eq", "std::cmp::impls::<impl std::cmp::PartialEq<&B> for &A>::ne") and len(args) == 2:
+            # `&a == &b` on references: dispatch to the referent's own PartialEq::eq with one level of reference removed
+            g = c.get("rgenerics") or c.get("generics") or []
+            inner = self.P.impl_method(fr.key, "std::cmp::PartialEq", g[0], "eq") if g else None
+            if inner is not None and self.should_inline(st, inner):
+                a2 = [self.SM.deref_arg(self, st, a) for a in args]
+                if all(x[0] in ('ref', 'unk') for x in a2):
+                    r = self.do_inline(st, fr, t, inner, a2)
+                    if rp.endswith("::ne"):
+                        st.frames[-1].post = ('not',)
+                    return r
         # 1. summaries (keyed on the resolved def-path)
         fn = self.extra_summaries.get(rp) or self.SM.lookup(rp, full)
         if fn is not None:
